@@ -72,6 +72,17 @@ def construct(m, meta):
                         bad += 1; problems.append((name + " altered its operand", repr(r)))
                     if name in ("update", "|") and snapshot(res)[1].get(type(x)._RENDER_CLS) != (x.a, x.b):
                         bad += 1; problems.append((name + ": the namespace given does not win", repr(res), repr(x)))
+            # update() with several namespaces of ONE class: the last one given wins - also when it equals what the set already holds
+            if r is not None:
+                for A in anc(r.render_cls):
+                    held = r[A]
+                    other = A.Args(1 - held.a, held.b)
+                    again = A.Args(held.a, held.b)
+                    for seq, want in (((other, again), (held.a, held.b)), ((again, other), (other.a, other.b)), ((other, held), (held.a, held.b))):
+                        res = r.update(*seq)
+                        if (res[A].a, res[A].b) != want:
+                            bad += 1; problems.append(("update(ns1, ns2) of one class: the last one given does not win", repr(r), [repr(x) for x in seq], "result", repr(res[A])))
+                    break
             # convert(): to every class of the tree and to the root - a new set of the TARGET class holding, for each class with
             # arguments that the target knows, this set's namespace if it has one, else the default; unrelated classes are rejected
             if r is not None:
